@@ -15,7 +15,6 @@ ENGINES = [
 NOTES = "Family: contract-based deductive verification of the real code. See DESIGN.md. Exit codes: 0 held, 1 VIOLATION, 2 undecided (tool problem / lost anchor; never a violation). Genuine defects repaired in /repo are listed in KNOWN_FINDINGS.txt as fixed:."
 
 NOT_APPLICABLE = {
-    "C15": "needs an unbounded proof of the f64 linear solver plus Schoenberg-Whitney/Marsden spline theory; not expressible as contracts Z3 can discharge here; see DESIGN.md §7 C15",
     "C16": "implementation is serde derive expansions + serde_json/bincode; no rateslib function body to put a contract on; see DESIGN.md §7 C16",
 }
 
@@ -122,6 +121,12 @@ TEXT = {
         "level_text": "Proof: the generic bodies are extracted from /repo each run with T bound to an abstract commutative ring (only the ring axioms, (a/p)*p == a for invertible p, and an order key for |.| are known). For every n, every matrix and right-hand side with `regular(a)` (the contract's form of non-singular) the returned x satisfies <row_i(a), x> == b_i for every i, as an identity in the ring - for Dual/Dual2 instances that is equality of value and of every first and second derivative. Back substitution is proved for every upper-triangular system with invertible diagonal; elimination is proved to keep every solution of the current system a solution of the original one (row operations seen backwards) and to produce zeros below invertible pivots.",
         "level_note": "Assumed: ring axioms for Dual/Dual2, contracts of row_swap / el_swap / argabsmax and of the ndarray API, regular(a) <=> non-singular. Not covered: row-order independence, floating-point conditioning.",
         "design_ref": "DESIGN.md §7 C13",
+    },
+    "C15": {
+        "technique": "Verus contracts on the extracted PPSpline::bsplmatrix / csolve / ppdnev_single bodies (coefficient type bound to an abstract module), on top of the verified contracts of fdsolve (C13) and of the B-spline basis functions (C14); interpolation lemma over the contracts",
+        "level_text": "Proof (interpolation clauses): the bodies are extracted from /repo each run. bsplmatrix holds, for every site and basis function, the left_n-th derivative in the first row, the right_n-th derivative in the last row and the plain value in between (de Boor / Cox-de Boor spec functions of C14). csolve: mismatched site counts are Err and leave the spline unchanged; otherwise the stored coefficients satisfy every collocation equation exactly (row of the matrix times coefficients == datum) by fdsolve's contract. ppdnev_single is the inner product of the basis (derivative) values at x with the coefficients. Hence (lemma_spline_interpolates) the solved spline takes the datum at every interior site and its requested derivatives take the data at the two end sites - for f64, Dual and Dual2 data alike (identity in the abstract module).",
+        "level_note": "Relative to `regular` of the collocation matrix (Schoenberg-Whitney not proved) and to the module axioms for Dual/Dual2. NOT covered: polynomial reproduction, sensitivities w.r.t. data and abscissa, least-squares mode. Trusted: Verus/Z3, extractor, shims.",
+        "design_ref": "DESIGN.md §7 C15",
     },
     "C07": {
         "engine": "verus-compiled-checker",
